@@ -205,13 +205,29 @@ def run_writers(gdesc, spec_list, eid0):
     tab = Table(gene, cov)
     S = [abstract_solution(gene, tab, ms, i + 1) for i, ms in enumerate(minors)]
     rows = []
-    for i, ms in enumerate(minors):
+    try:
+        for i, ms in enumerate(minors):
+            f = io.StringIO()
+            write_decomposition("S1", gene, coverage, i + 1, ms, f)
+            rows.append(read_decomposition(f.getvalue()))
         f = io.StringIO()
-        write_decomposition("S1", gene, coverage, i + 1, ms, f)
-        rows.append(read_decomposition(f.getvalue()))
-    f = io.StringIO()
-    write_vcf("S1", gene, coverage, minors, f)
+        write_vcf("S1", gene, coverage, minors, f)
+    except Exception as ex:  # a writer that raises on a well-formed solution list: a violation, not a machinery failure
+        raise WriterRaised(f"{type(ex).__name__}: {ex}")
     return {"id": eid0, "k": "list", "T": tab.rows, "S": S, "rows": rows, "nodecomp": [False] * len(S), "f": read_vcf(f.getvalue()), "novcf": False}
+
+
+class WriterRaised(Exception):
+    pass
+
+
+def run_writers_or_violation(ctx, gdesc, spec_list, eid):
+    try:
+        return run_writers(gdesc, spec_list, eid)
+    except WriterRaised as ex:
+        ctx.violation("WriterRaised", {"writer": "decomposition/vcf", "kind": "WriterRaised", "exception": str(ex).split(":")[0]},
+                      {"gene": gdesc, "solutions": spec_list}, f"writers raised {ex} on {gdesc} {spec_list}")
+        return None
 
 
 # --------------------------------------------------------------------------- classification of deviations
@@ -591,7 +607,9 @@ def run(ctx):
     gene = get_gene("toyout")
     for L in lists:
         spec_list = [[realise_option(gene, opts[o - 1]) for o in sol] for sol in L]
-        e = run_writers("toyout", spec_list, eid)
+        e = run_writers_or_violation(ctx, "toyout", spec_list, eid)
+        if e is None:
+            continue
         cases[eid] = {"gene": "toyout", "solutions": spec_list}
         evs[eid] = e
         rows.append(e)
@@ -619,7 +637,9 @@ def run(ctx):
                 amb += 1
                 continue
             made += 1
-            e = run_writers(gd, spec_list, eid)
+            e = run_writers_or_violation(ctx, gd, spec_list, eid)
+            if e is None:
+                continue
             cases[eid] = {"gene": gd, "solutions": spec_list}
             evs[eid] = e
             rows.append(e)
